@@ -30,7 +30,7 @@ from verif.core import Check, pmap, run_main, scratch_root, REPO
 from verif import reflang
 from verif.reflang import SyntaxFail, Unspecified
 
-from mesonbuild import mformat, mparser
+from mesonbuild import mformat, mparser, mlog
 from mesonbuild.mesonlib import MesonException
 from mesonbuild.ast.printer import AstJSONPrinter
 
@@ -243,8 +243,13 @@ def raw_violations(src, cfg, ref=True):
             viols.append(('unparseable', str(e)))
             tree2 = None
         except Unspecified as e:
-            viols.append(('output-unspecified', str(e)))
-            tree2 = None
+            # the output uses a construct whose meaning the docs do not fix (malformed escapes, \N{..}): not comparable.
+            # Exception: a newline inside '...' (deprecated, "use ''' for multiline strings") that the input did not have.
+            if 'newline inside' in str(e):
+                viols.append(('output-unspecified', str(e)))
+                tree2 = None
+            else:
+                return 'unspecified', [], out, info
         if tree2 is not None:
             a, b = norm(tree, sort_files), norm(tree2, sort_files)
             if a != b:
@@ -296,31 +301,111 @@ def still(kind, src, cfg, ref=True):
 
 
 ML_BACKSLASH = re.compile(r"'''(?:(?!''')[^\n'])*\\(?:(?!''')[^\n'])*'''")
+FILES_RE = re.compile(r'\bfiles((?:\s|\\[ \t]*(?:#[^\n]*)?\n)*\()')
 
 
 def neutralise_ml_backslash(src):
     return ML_BACKSLASH.sub(lambda m: m.group().replace('\\', 'B'), src)
 
 
+def walk(e):
+    if isinstance(e, tuple):
+        yield e
+    if isinstance(e, (tuple, list)):
+        for x in e:
+            yield from walk(x)
+
+
+def ref_tree_or_none(src):
+    try:
+        return reflang.parse(src)
+    except (SyntaxFail, Unspecified, RecursionError):
+        return None
+
+
+def nested_files(src):
+    t = ref_tree_or_none(src)
+    for n in walk(t) if t is not None else ():
+        if n and n[0] == 'call' and n[1] == 'files' and len(n[2]) == 1 and not n[3]:
+            a = reflang.strip_parens(n[2][0])
+            if a[0] == 'arr' and len(a[1]) == 1 and reflang.strip_parens(a[1][0])[0] == 'arr':
+                return True
+    return False
+
+
+def call_in_parens(src):
+    t = ref_tree_or_none(src)
+    for n in walk(t) if t is not None else ():
+        if n and n[0] == 'paren':
+            for m in walk(n[1]):
+                if m and m[0] in ('call', 'meth') and (m[-2] or m[-1]):
+                    return True
+    return False
+
+
+OPERAND_NODES = {'AssignmentNode', 'PlusAssignmentNode', 'ArithmeticNode', 'ComparisonNode', 'AndNode', 'OrNode', 'NotNode',
+                 'UMinusNode', 'TernaryNode', 'IndexNode', 'MethodNode', 'IfNode', 'ForeachClauseNode'}
+
+
+def missing_operand(src):
+    """The real parser accepted an operator / assignment with nothing in an operand position (EmptyNode)."""
+    try:
+        t = real_tree(src)
+    except Exception:
+        return False
+
+    def rec(d):
+        if isinstance(d, dict):
+            if d.get('node') in OPERAND_NODES:
+                for k, v in d.items():
+                    if isinstance(v, dict) and v.get('node') == 'EmptyNode' and k != 'block':
+                        return True
+            return any(rec(v) for v in d.values())
+        if isinstance(d, list):
+            return any(rec(x) for x in d)
+        return False
+    return rec(t)
+
+
+def idem_causes(src, cfg):
+    """Known mechanisms behind a missing fixed point: (key suffix, description, neutraliser (src, cfg) -> (src, cfg))."""
+    causes = []
+    if has_cont_in_brackets(src):
+        causes.append(('continuation-in-brackets',
+                       'a backslash line continuation inside brackets needs more than one format run to reach a fixed point',
+                       lambda s, c: (neutralise_cont(s), c)))
+    if cfg.get('no_single_comma_function'):
+        causes.append(('no-single-comma-function',
+                       'no_single_comma_function: the run that removes the comma of a single-argument call keeps it multi-line, '
+                       'the next run joins it',
+                       lambda s, c: (s, dict(c, no_single_comma_function=False))))
+    if FILES_RE.search(src):
+        if cfg.get('sort_files'):
+            causes.append(('files-sort-after-flatten',
+                           'sort_files: files([...]) is flattened by the first run and only sorted by the next one',
+                           lambda s, c: (s, dict(c, sort_files=False))))
+        if nested_files(src):
+            causes.append(('files-nested-flatten', 'files([[...]]) loses one array level per format run',
+                           lambda s, c: (FILES_RE.sub(r'filez\1', s), c)))
+    return causes
+
+
+def indent_only(a, b):
+    return a != b and [l.lstrip(' \t') for l in a.split('\n')] == [l.lstrip(' \t') for l in b.split('\n')]
+
+
 def classify(kind, detail, src, cfg, out, ref=True):
-    """Narrow key of one violation.  Causes are attributed by re-judging the input with the suspected cause removed."""
+    """Narrow key of one violation.  Known mechanisms are attributed by re-judging the input with the suspected cause
+    removed (the key of a mechanism is used only if removing it makes this kind of violation disappear)."""
     fam = 'C16:' if ref else 'C16:illformed:'
     simplify = cfg.get('simplify_string_literals', True)
     if kind == 'crash':
-        return fam + 'crash:' + detail.split(':')[0].replace('second pass', '').strip(), 'formatter raised ' + detail
-    if kind in ('unparseable', 'tree', 'output-unspecified'):
+        return fam + 'crash:' + detail.replace('second pass: ', '').split(':')[0].strip(), 'formatter raised ' + detail
+    if kind in ('unparseable', 'tree'):
         # suspect 8: a multiline string without newline/quote but with a backslash is simplified
         if simplify and ML_BACKSLASH.search(src) and not still(kind, neutralise_ml_backslash(src), cfg, ref):
-            return (fam + 'mlstring-backslash:' + kind,
+            return ('C16:mlstring-backslash:' + kind,
                     "'''..''' holding a backslash is rewritten to '..' where the backslash starts an escape")
-        if not ref and kind == 'tree':
-            return fam + 'tree', 'the real parser reads a different program from the formatted text'
-        if kind == 'tree':
-            path, a, b = detail
-            return fam + 'tree:%s->%s' % (kind_of(a), kind_of(b)), 'tree differs at %r: %r -> %r' % (path, a, b)
-        if kind == 'unparseable':
-            return fam + 'unparseable-output', 'formatted text does not parse: ' + str(detail)
-        return fam + 'output-unspecified', 'formatted text uses a construct without specified meaning: ' + str(detail)
     if kind == 'comments':
         ca, cb = detail
         if sorted(ca) == sorted(cb):
@@ -332,25 +417,42 @@ def classify(kind, detail, src, cfg, out, ref=True):
         else:
             sub = 'changed'
         # suspect 16: the comment hangs off the brackets of the array that files([...]) flattening removes
-        if sub == 'lost' and re.search(r'\bfiles\s*\(', src):
-            alt = re.sub(r'\bfiles(\s*\()', r'filez\1', src)
-            if not still('comments', alt, cfg, ref):
-                return (fam + 'comments:lost:files-flatten',
-                        'comment attached to the brackets of the array in files([...]) is dropped by the flattening')
+        if sub == 'lost' and FILES_RE.search(src) and not still('comments', FILES_RE.sub(r'filez\1', src), cfg, ref):
+            return ('C16:comments:lost:files-flatten',
+                    'comment attached to the brackets of the array in files([...]) is dropped by the flattening')
+    if kind == 'idem':
+        causes = idem_causes(src, cfg)
+        for name, what, fn in causes:
+            s2, c2 = fn(src, cfg)
+            if not still('idem', s2, c2, ref):
+                return 'C16:idem:' + name, what
+        if len(causes) > 1:
+            s2, c2 = src, cfg
+            for name, what, fn in causes:
+                if s2 is not None:
+                    s2, c2 = fn(s2, c2)
+            if not still('idem', s2, c2, ref):
+                return 'C16:idem:' + causes[0][0], causes[0][1] + ' (together with: %s)' % ', '.join(c[0] for c in causes[1:])
+        if indent_only(out, detail) and call_in_parens(src):
+            return ('C16:idem:indent-only:call-in-multiline-parens',
+                    'a call with split arguments inside a multi-line parenthesised expression is re-indented by every further run')
+    # not explained by a known mechanism
+    if not ref and missing_operand(src):
+        return ('C16:illformed:missing-operand:' + kind,
+                'ill-formed input accepted by the parser (operator or assignment without operand before a newline): formatting '
+                'joins the next line to it')
+    if kind == 'tree':
+        if not ref:
+            return fam + 'tree', 'the real parser reads a different program from the formatted text'
+        path, a, b = detail
+        return fam + 'tree:%s->%s' % (kind_of(a), kind_of(b)), 'tree differs at %r: %r -> %r' % (path, a, b)
+    if kind == 'unparseable':
+        return fam + 'unparseable-output', 'formatted text does not parse: ' + str(detail)
+    if kind == 'output-unspecified':
+        return fam + 'output:newline-in-plain-string', 'formatted text has a newline inside a plain quoted string (deprecated): ' + str(detail)
+    if kind == 'comments':
         return fam + 'comments:' + sub, 'comments %r -> %r' % (ca, cb)
     if kind == 'idem':
-        # suspect 17: line continuation inside brackets
-        if has_cont_in_brackets(src) and not still('idem', neutralise_cont(src), cfg, ref):
-            return (fam + 'idem:continuation-in-brackets',
-                    'a backslash line continuation inside brackets needs more than one format run to reach a fixed point')
-        if re.search(r'\bfiles\s*\(', src):
-            alt = re.sub(r'\bfiles(\s*\()', r'filez\1', src)
-            if not still('idem', alt, cfg, ref):
-                if cfg.get('sort_files') and not still('idem', src, dict(cfg, sort_files=False), ref):
-                    return (fam + 'idem:files-sort-after-flatten',
-                            'files([...]) is flattened by the first run and only sorted by the next one')
-                return (fam + 'idem:files-nested-flatten',
-                        'files([[...]]) loses one array level per format run')
         return fam + 'idem:other', 'format(format(x)) != format(x): %r -> %r' % (out, detail)
     return fam + kind, str(detail)
 
@@ -594,6 +696,8 @@ def depth2():
             for iname, itoks in inner:
                 if cname.startswith('files') and not iname.startswith(('arr', 'call', 'files')):
                     continue
+                if cname == 'tern' and iname == 'tern':
+                    continue        # E6: a ternary inside a ternary is rejected (C01's clause), even parenthesised
                 sub = itoks
                 if iname in LOWPREC and cname in LOWPREC | {'meth0', 'meth1', 'methkw', 'idx'} and not (cname in ('meth1', 'methkw', 'idx') and h == 1):
                     sub = PAR(itoks)    # keep the intended tree: parenthesise operands of operators
@@ -881,6 +985,9 @@ def gen_longargs(lengths):
         yield 'chain', lambda at: ASSIGN('x', METH(METH(ID('o'), 'm', at[:1]), 'n', at[1:], trailing=tc))
         yield 'paren-and', lambda at: ASSIGN('x', PAR(andchain(at)))
         yield 'paren-nested', lambda at: ASSIGN('x', CALL('f', [PAR(PAR(at[0]))] + [PAR(BIN(a, '+', ONE)) for a in at[1:]], trailing=tc))
+        yield 'paren-call', lambda at: ASSIGN('x', PAR(CALL('f', at, trailing=tc)))
+        yield 'paren-call+nested', lambda at: ASSIGN('x', PAR(CALL('f', at, trailing=tc))) + ASSIGN('y', CALL('g', [CALL('h', at)]))
+        yield 'paren-meth-or', lambda at: IF([(PAR(BIN(METH(METH(ID('o'), 'm', at), 'n'), 'or', ID('b'))), BODY1)]) + EXPR(CALL('g', [CALL('h', at)]))
         yield 'group', lambda at: EXPR(CALL('f', [x for i, a in enumerate(at) for x in (STR("'--o%d'" % i), a)], trailing=tc))
 
     def andchain(at):
@@ -909,7 +1016,7 @@ def gen_longargs(lengths):
                             else:
                                 at[-1] = [(t[0][:-1] + 'z' * pad + "'", t[1], t[2])]
                             toks = build(at)
-                            if one_line_len(toks) != L + d and cname not in ('in-if', 'if-cond'):
+                            if one_line_len(toks) != L + d and cname not in ('in-if', 'if-cond', 'paren-meth-or'):
                                 continue
                             out.append(render(toks))
     seen = set()
@@ -1064,9 +1171,8 @@ def cli_case(src, file_nl, cfg, tag):
         else:
             viols.append(('check-only:status', '--check-only exit %d but --inplace %s the file (%s)' % (
                 rc_check, 'changes' if would_change else 'does not change', info)))
-    if rc_diff != rc_check or (rc_diff == 1) != bool(diff.strip()):
-        viols.append(('check-diff:status', '--check-diff exit %d / diff %s, --check-only exit %d (%s)' % (
-            rc_diff, 'printed' if diff.strip() else 'empty', rc_check, info)))
+    if rc_diff != rc_check:
+        viols.append(('check-diff:status', '--check-diff exit %d but --check-only exit %d (%s)' % (rc_diff, rc_check, info)))
     if written2 != written:
         viols.append(('inplace:not-idempotent', 'a second --inplace run rewrites the file again (%s)' % info))
     if outb != written:
@@ -1159,6 +1265,7 @@ def run_items(worker, items, chunksize=1):
 
 def main():
     ck = Check('C16', 'exploration')
+    mlog._logger.log_disable_stdout = True
     if ck.args.replay:
         return replay(ck)
     work_dirs()
